@@ -3,6 +3,7 @@ import re
 from lib import *
 
 PROP = "C17"
+PAR_OK = True
 LEVEL = "proof"
 RULE = ("binary trees on 4..12 tips (thorough: up to 24), unrooted (root of degree 3) and rooted (root of degree 2, with 0, 1 or 2 "
         "inner root children), the parent slot of every inner node at a random position of its neighbour array (as after earlier "
